@@ -70,7 +70,8 @@ func (b *deprecatedStateBackend) Store(
 	newClasses map[felt.Felt]core.ClassDefinition,
 ) error {
 	//nolint:staticcheck,nolintlint // used by old state
-	return b.database.Update(func(txn db.IndexedBatch) error {
+	filterTouched := false
+	err := b.database.Update(func(txn db.IndexedBatch) error {
 		if err := verifyBlockSuccession(txn, block); err != nil {
 			return err
 		}
@@ -97,13 +98,20 @@ func (b *deprecatedStateBackend) Store(
 			return err
 		}
 
+		filterTouched = true
 		return b.runningFilter.InsertWithBatch(txn, block.EventsBloom, block.Number)
 	})
+	if err != nil && filterTouched {
+		// the in-memory filter was already updated by the failed batch: re-read it from disk
+		b.runningFilter.Invalidate()
+	}
+	return err
 }
 
 func (b *deprecatedStateBackend) RevertHead() error {
 	//nolint:staticcheck,nolintlint // used by old state
-	return b.database.Update(func(txn db.IndexedBatch) error {
+	filterTouched := false
+	err := b.database.Update(func(txn db.IndexedBatch) error {
 		blockNumber, err := core.GetChainHeight(txn)
 		if err != nil {
 			return err
@@ -127,8 +135,14 @@ func (b *deprecatedStateBackend) RevertHead() error {
 			return err
 		}
 
+		filterTouched = true
 		return b.runningFilter.OnReorgWithBatch(txn)
 	})
+	if err != nil && filterTouched {
+		// the in-memory filter was already updated by the failed batch: re-read it from disk
+		b.runningFilter.Invalidate()
+	}
+	return err
 }
 
 func (b *deprecatedStateBackend) GetReverseStateDiff() (core.StateDiff, error) {
@@ -200,7 +214,8 @@ func (b *deprecatedStateBackend) Finalise(
 	sign core.BlockSignFunc,
 ) error {
 	//nolint:staticcheck,nolintlint // used by old state
-	return b.database.Update(func(txn db.IndexedBatch) error {
+	filterTouched := false
+	err := b.database.Update(func(txn db.IndexedBatch) error {
 		err := updateStateRoots(deprecatedstate.New(txn), block, stateUpdate, newClasses)
 		if err != nil {
 			return err
@@ -231,8 +246,14 @@ func (b *deprecatedStateBackend) Finalise(
 			return err
 		}
 
+		filterTouched = true
 		return b.runningFilter.InsertWithBatch(txn, block.EventsBloom, block.Number)
 	})
+	if err != nil && filterTouched {
+		// the in-memory filter was already updated by the failed batch: re-read it from disk
+		b.runningFilter.Invalidate()
+	}
+	return err
 }
 
 func (b *deprecatedStateBackend) VerifyBlockHash(
